@@ -435,7 +435,7 @@ def rule_partial(rep: Report, rid="C01.partial") -> None:
                     ok, why = True, "tuple unpacking of an iteration element"
                 if not ok and base[0] == "attr" and base[2] == "args":
                     ok, why = True, "exception args set by the constructor"
-                if not ok and base[0] == "attr" and base[2] == "stack":
+                if not ok and base[0] == "attr" and base[2] == N.STACK:
                     ok, why = True, "builder stack holds the root node pushed by reset() below every open rule (start/end_rule pair per C02)"
                 if not ok and base[0] == "call" and base[1] == "enumerate":
                     ok, why = True, "enumerate pair"
